@@ -1,6 +1,7 @@
 package main
 
 import (
+	"context"
 	"database/sql"
 	"database/sql/driver"
 	"errors"
@@ -464,6 +465,87 @@ func scenarioFault(t *traceWriter, rng *rand.Rand) {
 		}
 		s.end()
 		closeFn()
+	}
+	// the caller's context ends while an update is in flight (parked just before Set): if Update comes back
+	// with a refusal, nothing may change afterwards — a refusal is final, not "refused now, committed later"
+	for ci, k := range []hk{kinds[0], kinds[1], kinds[2]} {
+		for _, storeKind := range []string{"mem", "sqlfile2"} {
+			for _, at := range []string{"G", "S"} {
+				if hangCount >= 3 {
+					break
+				}
+				caseNo++
+				defs := []*logDef{{origin: fmt.Sprintf("fault.example/%d/a", caseNo), key: key}, {origin: fmt.Sprintf("fault.example/%d/b", caseNo), key: keyB}}
+				parked := make(chan struct{}, 1)
+				release := make(chan struct{})
+				ctl := &lspCtl{fail: map[string]bool{}}
+				var inner persistence.LogStatePersistence
+				closeFn := func() {}
+				if storeKind == "mem" {
+					inner = inmemory.NewPersistence()
+				} else {
+					path := filepath.Join(scratch, fmt.Sprintf("x%d-%d.db", ci, caseNo))
+					db, p := openSQL(path)
+					inner = p
+					closeFn = func() { db.Close(); os.Remove(path) }
+				}
+				s := newSessionWith(t, storeKind, defs, wkeys, &wrapLSP{inner: inner, ctl: ctl, tid: func() int { return 0 }}, nil)
+				l := defs[0]
+				if k.setup >= 0 {
+					s.update(l.id, 0, signNote(cpText(l.origin, uint64(k.setup), tr.root(uint64(k.setup))), key.signer), [][]byte{}, "class=setup")
+				}
+				allpre := s.allState()
+				armed := true
+				ctl.gate = func(_ int, op string) {
+					if armed && op == at {
+						armed = false
+						parked <- struct{}{}
+						<-release
+					}
+				}
+				ctx, cancel := context.WithCancel(context.Background())
+				type res struct {
+					ret []byte
+					err error
+				}
+				done := make(chan res, 1)
+				cp := signNote(cpText(l.origin, k.size, k.branch.root(k.size)), key.signer)
+				go func() {
+					ret, err := s.w.Update(ctx, l.id, k.old, cp, k.proof())
+					done <- res{ret, err}
+				}()
+				early, refusedEarly := 0, 0
+				select {
+				case <-parked:
+					cancel()
+					select {
+					case r := <-done: // came back although its storage work is still parked
+						early = 1
+						if r.err != nil {
+							refusedEarly = 1
+						}
+					case <-time.After(300 * time.Millisecond):
+					}
+				case r := <-done:
+					_ = r
+				case <-time.After(5 * time.Second):
+				}
+				close(release)
+				if early == 0 {
+					select {
+					case <-done:
+					case <-time.After(5 * time.Second):
+					}
+				}
+				time.Sleep(200 * time.Millisecond)
+				ctl.gate = nil
+				cancel()
+				allpost := s.allState()
+				t.line("UC %s kind=%s store=%s at=%s early=%d refused=%d allpre=%s => allafter=%s", s.id, k.name, storeKind, at, early, refusedEarly, allpre, allpost)
+				s.end()
+				closeFn()
+			}
+		}
 	}
 	for _, k := range kinds {
 		for _, f := range ifaceFaults {
